@@ -48,3 +48,9 @@ add('C03', 'property-based testing: pastified online monitor vs reference semant
     'construction and exercised in its own lane.',
     'Trusted: vlib/refsem.py and the harness horizon function; outputs for i < h are unconstrained.',
     'DESIGN.md section 5 C03')
+add('C14', 'property-based testing / grammar-based fuzzing: generated, mutated and random-token specification texts against an independent tokenizer + recogniser and an exception-type oracle (Hypothesis)',
+    'Tens of thousands of texts per run (derivable files with aliases/declarations/constants, token-level mutations incl. illegal characters, trailing garbage, '
+    'bad intervals, odd literals, undeclared names; token soup). parse() must return or raise RTAMTException; on success the independent recogniser must accept the text, '
+    'no character may have been skipped, intervals must be well formed, bound constants declared, and the first evaluate() must return or raise RTAMTException.',
+    'Trusted: vlib/lang.py (tokenizer transcribed from LtlLexer.g4, all-paths recogniser for the context-free language of the parser grammars); termination observed under a 20 s alarm.',
+    'DESIGN.md section 5 C14')
